@@ -490,6 +490,12 @@ class Gen:
                               self.enum_in(TimeOfDay, "timeOfDay", exclude=() if r.random() < 0.3 else (TimeOfDay.UNKNOWN,)),
                               self.enum_in(Weather, "weather", exclude=(Weather.UNKNOWN,)),
                               self.enum_in(Underground, "underground", exclude=(Underground.UNKNOWN,)))
+            r3 = random.Random(self.seed ^ 0xE7)
+            if self.fmt == "pb" and r3.random() < 0.4:
+                # protobuf: an environment some of whose entries are absent (None given explicitly; optional fields of
+                # the message) - absent data stays absent (seed C02-14: the reader's defaults)
+                for a in r3.sample(["time_of_day", "weather", "underground", "time"], r3.randint(1, 3)):
+                    setattr(env, a, None)
         return Location(r.randint(1, 9999999), self.f(-90, 90), self.f(-180, 180), geo, env)
 
     def build(self):
